@@ -1,23 +1,23 @@
 verus! {
 /// C07: THE messages one committed request stands for, in order — one function for all three paths.
 /// Written from the property: every request variant goes to its one component, carrying every field unchanged.
-pub open spec fn effs(req: ClientRequest) -> Seq<Eff> {
+pub open spec fn effs(h: RaftDataHandler, im: Addr<RaftIndexManager>, req: ClientRequest) -> Seq<Eff> {
     match req {
-        ClientRequest::NodeAddr { id, addr } => seq![eff_of(RaftIndexRequest::AddNodeAddr(id, addr))],
-        ClientRequest::Members(member) => seq![eff_of(member_msg(member))],
-        ClientRequest::SequenceReq { req } => seq![eff_of(req)],
+        ClientRequest::NodeAddr { id, addr } => seq![sent(im, RaftIndexRequest::AddNodeAddr(id, addr))],
+        ClientRequest::Members(member) => seq![sent(im, member_msg(member))],
+        ClientRequest::SequenceReq { req } => seq![sent(h.sequence_db, req)],
         ClientRequest::ConfigSet { key, value, config_type, desc, history_id, history_table_id, op_time, op_user } =>
-            seq![eff_of(ConfigRaftCmd::ConfigAdd { key, value, config_type, desc, history_id, history_table_id, op_time, op_user })],
+            seq![sent(h.config, ConfigRaftCmd::ConfigAdd { key, value, config_type, desc, history_id, history_table_id, op_time, op_user })],
         ClientRequest::ConfigFullValue { key, value, last_seq_id } =>
             if do_of_bytes(value@) is Some {
-                seq![eff_of(ConfigRaftCmd::SetFullValue { key: key_of_text(key_text(key@)), value: value_of_do(do_of_bytes(value@).unwrap()), last_id: last_seq_id })]
+                seq![sent(h.config, ConfigRaftCmd::SetFullValue { key: key_of_text(key_text(key@)), value: value_of_do(do_of_bytes(value@).unwrap()), last_id: last_seq_id })]
             } else { seq![] },
-        ClientRequest::ConfigRemove { key } => seq![eff_of(ConfigRaftCmd::ConfigRemove { key })],
-        ClientRequest::TableManagerReq(req) => seq![eff_of(req)],
-        ClientRequest::NamespaceReq(req) => seq![eff_of(req)],
-        ClientRequest::McpReq { req } => seq![eff_of(req)],
-        ClientRequest::NamingReq { req } => seq![eff_of(req)],
-        ClientRequest::CacheReq { req } => seq![eff_of(req)],
+        ClientRequest::ConfigRemove { key } => seq![sent(h.config, ConfigRaftCmd::ConfigRemove { key })],
+        ClientRequest::TableManagerReq(req) => seq![sent(h.table, req)],
+        ClientRequest::NamespaceReq(req) => seq![sent(h.namespace, req)],
+        ClientRequest::McpReq { req } => seq![sent(h.mcp_manager, req)],
+        ClientRequest::NamingReq { req } => seq![sent(h.naming_actor, req)],
+        ClientRequest::CacheReq { req } => seq![sent(h.direct_cache_manager, req)],
     }
 }
 
@@ -34,23 +34,53 @@ pub open spec fn req_of_record(rec: LogRecordDto) -> Option<ClientRequest> {
     }
 }
 pub open spec fn reqs_of(batch: Seq<ApplyRequestDto>) -> Seq<ClientRequest> { batch.map_values(|a: ApplyRequestDto| a.request) }
-pub open spec fn saved_applied(i: u64) -> Eff { eff_of(RaftIndexRequest::SaveLastAppliedLog(i)) }
+pub open spec fn saved_applied(im: Addr<RaftIndexManager>, i: u64) -> Eff { sent(im, RaftIndexRequest::SaveLastAppliedLog(i)) }
 impl StateApplyManager {
     /// the manager after dependency injection
     pub open spec fn wired(&self) -> bool { self.data_wrap is Some && self.index_manager is Some }
+    pub open spec fn h(&self) -> RaftDataHandler { *self.data_wrap.unwrap() }
+    pub open spec fn im(&self) -> Addr<RaftIndexManager> { self.index_manager.unwrap() }
+}
+
+// ---------------------------------------------------------------- C01: snapshot records go to the component that owns their tree
+pub open spec fn tree_is(rec: SnapshotRecordDto, name: Seq<char>) -> bool { (*rec.tree)@ == name }
+/// a record the loader cannot decode (it answers Err before sending anything)
+pub open spec fn snap_undecodable(rec: SnapshotRecordDto) -> bool {
+    tree_is(rec, "T_CONFIG"@) && (utf8_text(rec.key@) is None || do_of_bytes(rec.value@) is None)
+}
+/// THE message one snapshot record stands for (first matching tree name wins, in the order of the statement: config,
+/// sequences — the config history counter is kept by the config component — users, old cache table, cache, namespaces,
+/// MCP servers / tool specs, persistent instances); records of an unknown tree are ignored
+pub open spec fn snap_effs(h: RaftDataHandler, rec: SnapshotRecordDto) -> Seq<Eff> {
+    if tree_is(rec, "T_CONFIG"@) {
+        if snap_undecodable(rec) { seq![] } else {
+            seq![sent(h.config, ConfigCmd::SetFullValue(key_of_text(utf8_text(rec.key@).unwrap()), value_of_do(do_of_bytes(rec.value@).unwrap())))]
+        }
+    } else if tree_is(rec, "T_SEQUENCE"@) {
+        if key_text(rec.key@) == "SEQ_CONFIG"@ { seq![sent(h.config, ConfigCmd::InnerSetLastId(be_id(rec.value@)))] }
+        else { seq![sent(h.sequence_db, RaftApplyDataRequest::LoadSnapshotRecord(rec))] }
+    } else if tree_is(rec, "T_USER"@) {
+        seq![Eff { to: addr_id(h.table), msg: table_set_msg("T_USER"@, rec.key, rec.value) }]
+    } else if tree_is(rec, "T_CACHE"@) {
+        seq![Eff { to: addr_id(h.table), msg: table_set_msg("T_CACHE"@, rec.key, rec.value) }]
+    } else if tree_is(rec, "T_DIRECT_CACHE"@) { seq![sent(h.direct_cache_manager, RaftApplyDataRequest::LoadSnapshotRecord(rec))] }
+    else if tree_is(rec, "T_NAMESPACE"@) { seq![sent(h.namespace, RaftApplyDataRequest::LoadSnapshotRecord(rec))] }
+    else if tree_is(rec, "T_MCP_SERVER"@) || tree_is(rec, "T_MCP_TOOL_SPEC"@) { seq![sent(h.mcp_manager, RaftApplyDataRequest::LoadSnapshotRecord(rec))] }
+    else if tree_is(rec, "T_NAMING_INSTANCE"@) { seq![sent(h.naming_actor, RaftApplyDataRequest::LoadSnapshotRecord(rec))] }
+    else { seq![] }
 }
 
 /// the messages a whole committed sequence stands for
-pub open spec fn effs_all(reqs: Seq<ClientRequest>) -> Seq<Eff>
+pub open spec fn effs_all(h: RaftDataHandler, im: Addr<RaftIndexManager>, reqs: Seq<ClientRequest>) -> Seq<Eff>
     decreases reqs.len()
 {
-    if reqs.len() == 0 { seq![] } else { effs_all(reqs.drop_last()) + effs(reqs.last()) }
+    if reqs.len() == 0 { seq![] } else { effs_all(h, im, reqs.drop_last()) + effs(h, im, reqs.last()) }
 }
 
-pub proof fn lemma_effs_all_step(batch: Seq<ApplyRequestDto>, k: int)
+pub proof fn lemma_effs_all_step(h: RaftDataHandler, im: Addr<RaftIndexManager>, batch: Seq<ApplyRequestDto>, k: int)
     requires 0 <= k < batch.len()
-    ensures effs_all(reqs_of(batch.take(k + 1))) == effs_all(reqs_of(batch.take(k))) + effs(batch[k].request),
-        effs_all(reqs_of(batch.take(0))) == Seq::<Eff>::empty(),
+    ensures effs_all(h, im, reqs_of(batch.take(k + 1))) == effs_all(h, im, reqs_of(batch.take(k))) + effs(h, im, batch[k].request),
+        effs_all(h, im, reqs_of(batch.take(0))) == Seq::<Eff>::empty(),
         batch.take(batch.len() as int) == batch,
 {
     let a = reqs_of(batch.take(k + 1));
@@ -63,32 +93,32 @@ pub proof fn lemma_effs_all_step(batch: Seq<ApplyRequestDto>, k: int)
 /// C07, relational form: whatever mixture of the three paths a node used for each entry (leader for some, follower
 /// batches for others, replay after a restart), the component actors received the same messages in the same order.
 /// `step(path, log, req)` is the postcondition shared by the three contracts.
-pub open spec fn step(before: Seq<Eff>, after: Seq<Eff>, req: ClientRequest) -> bool { after == before + effs(req) }
+pub open spec fn step(h: RaftDataHandler, im: Addr<RaftIndexManager>, before: Seq<Eff>, after: Seq<Eff>, req: ClientRequest) -> bool { after == before + effs(h, im, req) }
 
-pub proof fn lemma_paths_agree(reqs: Seq<ClientRequest>, logs_a: Seq<Seq<Eff>>, logs_b: Seq<Seq<Eff>>)
+pub proof fn lemma_paths_agree(h: RaftDataHandler, im: Addr<RaftIndexManager>, reqs: Seq<ClientRequest>, logs_a: Seq<Seq<Eff>>, logs_b: Seq<Seq<Eff>>)
     requires
         logs_a.len() == reqs.len() + 1, logs_b.len() == reqs.len() + 1,
         logs_a[0] == logs_b[0],
-        forall|i: int| 0 <= i < reqs.len() ==> #[trigger] step(logs_a[i], logs_a[i + 1], reqs[i]),
-        forall|i: int| 0 <= i < reqs.len() ==> #[trigger] step(logs_b[i], logs_b[i + 1], reqs[i]),
-    ensures logs_a.last() == logs_b.last(), logs_a.last() == logs_a[0] + effs_all(reqs)
+        forall|i: int| 0 <= i < reqs.len() ==> #[trigger] step(h, im, logs_a[i], logs_a[i + 1], reqs[i]),
+        forall|i: int| 0 <= i < reqs.len() ==> #[trigger] step(h, im, logs_b[i], logs_b[i + 1], reqs[i]),
+    ensures logs_a.last() == logs_b.last(), logs_a.last() == logs_a[0] + effs_all(h, im, reqs)
     decreases reqs.len()
 {
     if reqs.len() == 0 {
-        assert(logs_a[0] + effs_all(reqs) =~= logs_a[0]);
+        assert(logs_a[0] + effs_all(h, im, reqs) =~= logs_a[0]);
     } else {
         let n = reqs.len() as int;
-        lemma_paths_agree(reqs.drop_last(), logs_a.drop_last(), logs_b.drop_last());
-        assert(step(logs_a[n - 1], logs_a[n], reqs[n - 1]));
-        assert(step(logs_b[n - 1], logs_b[n], reqs[n - 1]));
+        lemma_paths_agree(h, im, reqs.drop_last(), logs_a.drop_last(), logs_b.drop_last());
+        assert(step(h, im, logs_a[n - 1], logs_a[n], reqs[n - 1]));
+        assert(step(h, im, logs_b[n - 1], logs_b[n], reqs[n - 1]));
         assert(logs_a.drop_last().last() == logs_a[n - 1]);
         assert(logs_b.drop_last().last() == logs_b[n - 1]);
-        assert(forall|i: int| 0 <= i < n - 1 ==> #[trigger] step(logs_a.drop_last()[i], logs_a.drop_last()[i + 1], reqs.drop_last()[i])) by {
-            assert forall|i: int| 0 <= i < n - 1 implies #[trigger] step(logs_a.drop_last()[i], logs_a.drop_last()[i + 1], reqs.drop_last()[i]) by {
-                assert(step(logs_a[i], logs_a[i + 1], reqs[i]));
+        assert(forall|i: int| 0 <= i < n - 1 ==> #[trigger] step(h, im, logs_a.drop_last()[i], logs_a.drop_last()[i + 1], reqs.drop_last()[i])) by {
+            assert forall|i: int| 0 <= i < n - 1 implies #[trigger] step(h, im, logs_a.drop_last()[i], logs_a.drop_last()[i + 1], reqs.drop_last()[i]) by {
+                assert(step(h, im, logs_a[i], logs_a[i + 1], reqs[i]));
             }
         }
-        assert((logs_a[0] + effs_all(reqs.drop_last())) + effs(reqs.last()) =~= logs_a[0] + effs_all(reqs));
+        assert((logs_a[0] + effs_all(h, im, reqs.drop_last())) + effs(h, im, reqs.last()) =~= logs_a[0] + effs_all(h, im, reqs));
     }
 }
 } // verus!
